@@ -247,8 +247,11 @@ U('cwrap_search', fam_cwrap, 'PGMWrapper_search', ['C18', 'C17'], assumed=['PGMW
                                      'the macro-generated extern "C" functions (create/destroy/forwarding) are not under contract'])
 
 U('dyn_merge', fam_dyn, 'Dyn_merge', ['C05', 'C17'], inline=['Item_deleted'], assumed=['pgmv_copy_Item'], decls=['dyn_ghost', 'dyn_mergeview'],
-  lemmas=['lemma_strict2', 'lemma_absent2'], insts=DYN_Q, thorough_insts=DYN_ALL, spec=('dyn.spec',), timeout=1500, partition=16, mem_gb=10,
-  assumptions=[DYN_NOTE, 'range std::move / std::copy replaced by an element-wise copy contract [A]', 'merge is called with ranges starting at index 0 (as pairwise_merge does)'])
+  lemmas=['lemma_strict2', 'lemma_absent2'], insts=DYN_Q, thorough_insts=DYN_ALL, spec=('dyn.spec',), timeout=1500, partition=16, mem_gb=10, solver='kissat', cases=[('PGMV_CASE', '0'), ('PGMV_CASE', '2')],
+  assumptions=[DYN_NOTE, 'quick tier: cases 0 (both runs non-empty, second run from index 0) and 2 (an empty run); case 1 (second run a proper slice, as range() calls it) needs 20 min and runs in the thorough tier as unit dyn_merge_slice', 'range std::move / std::copy replaced by an element-wise copy contract [A]', 'the first run and the output start at index 0 (as in pairwise_merge and range()); the second run may be a slice [first2,last2)'])
+U('dyn_merge_slice', fam_dyn, 'Dyn_merge', ['C05', 'C17'], thorough_only_props=['C05', 'C17'], inline=['Item_deleted'], assumed=['pgmv_copy_Item'], decls=['dyn_ghost', 'dyn_mergeview'],
+  lemmas=['lemma_strict2', 'lemma_absent2'], insts=DYN_Q, thorough_insts=DYN_ALL, spec=('dyn.spec',), timeout=3000, partition=16, mem_gb=10, solver='kissat', cases=[('PGMV_CASE', '1')],
+  assumptions=[DYN_NOTE, 'range std::move / std::copy replaced by an element-wise copy contract [A]', 'the first run and the output start at index 0 (as in pairwise_merge and range()); the second run may be a slice [first2,last2)'])
 
 
 # ---------------------------------------------------------------------------------------------------
